@@ -83,6 +83,9 @@ func evalC02(c *engine.Case) engine.Verdict {
 	if c.Note != "" {
 		v.Class("primed-" + c.Note)
 	}
+	if len(sc.PriorInputs) > 0 {
+		v.Class("prior-call-on-same-func")
+	}
 	outs, ws, err := runReps(sc, reps, c.Note)
 	if err != nil {
 		v.Class("setup-error")
